@@ -232,6 +232,15 @@ def classify(c, got, want):
     return out
 
 
+def _canon(trace):
+    rel = [t for t in trace if t.startswith("relink")]
+    rest = [t for t in trace if not t.startswith("relink")]
+    if "post_setter" in rest and rel:
+        i = rest.index("post_setter")
+        return rest[:i] + rel + rest[i:]
+    return trace
+
+
 _cache = {}
 
 
@@ -250,6 +259,16 @@ def setter_model(ctx):
             raise AnalysisError("setter model: absint cannot interpret Parameter.__set__: %s" % e)
         want = expected(c)
         n += 1
+        # the relative order of relink and post_setter is not part of the specification
+        got = (got[0], got[1], _canon(got[2]))
+        want = (want[0], want[1], _canon(want[2]))
+        if want[0] is not None and got[0] is not None:
+            # a rejected assignment: which of several applicable rejections comes first (and whether the value
+            # was validated before a constant/readonly rejection) is not specified; that nothing else happened is
+            both = c["vraises"] and (c["readonly"] or (c["constant"] and c["route"] == "inst_init" and not c["identical"]))
+            same_exc = got[0] == want[0] or (both and got[0] in ("ValueError", "TypeError"))
+            if same_exc and got[1] is None and not [t for t in got[2] if t != "validate"]:
+                continue
         if got != want:
             for p in classify(c, got, want):
                 per[p].append((c, got, want))
